@@ -248,7 +248,7 @@ def setField (o : Elem) (field : String) (x : JV) : Elem :=
 
 def stepUnwind (field : String) (t : Traveler) : List Traveler :=
   match t.cur with
-  | none => []   -- the Go code dereferences a nil element here (C06's subject); never generated
+  | none => [t]  -- `if t.IsNull() { out <- t; continue }`: nothing to replicate (after count, render, select, *Null)
   | some cur =>
     let items := match t.value field with
       | .arr (x :: xs) => x :: xs
